@@ -121,6 +121,15 @@ def okSeq (P : Params) (s : State) : List Op → Prop
   | [] => True
   | op :: ops => pre P s op ∧ okSeq P (step P s op) ops
 
+instance (P : Params) (s : State) (op : Op) : Decidable (pre P s op) := by
+  cases op <;> unfold pre <;> exact inferInstance
+
+instance decOkSeq (P : Params) : (s : State) → (ops : List Op) → Decidable (okSeq P s ops)
+  | _, [] => isTrue trivial
+  | s, op :: ops =>
+    have := decOkSeq P (step P s op) ops
+    by unfold okSeq; exact inferInstance
+
 /-! ### the consistency invariant (statement of C16_inv) -/
 
 /-- Consistency of the four views, with the trees named by `pend` exempt from the tree clause (they are
@@ -277,5 +286,60 @@ def placeStart (P : Params) (W : WalkParams) (s : State) (other : V3 → Bool) (
   | some start =>
     if other start && !isOverlap P W s start first excl then some (start, add P s first start true)
     else none
+
+/-! ### C05's statement about one accepted placement, as an executable check
+(evaluated by the driver on every `add_positions` call captured from the real `BuildSystem`) -/
+
+structure PlacementCheck where
+  /-- inside the periodic box `0 ≤ pᵢ < Lᵢ` -/
+  inBox : Bool
+  /-- squared minimum-image distance to the residue it was grown from (`none`: start placement, or
+  that residue has no position) -/
+  stepD2 : Option Rat
+  /-- `|d² − step²| ≤ tol·step²` (exact equality for `tol = 0`) -/
+  stepOk : Bool
+  /-- smallest squared minimum-image distance to another positioned residue -/
+  closestD2 : Option Rat
+  /-- no other positioned residue closer than the floor -/
+  floorOk : Bool
+  /-- the specification's force from the positioned non-neighbour residues within the cut-off -/
+  force : Force
+  /-- its norm does not exceed the maximum force (`(1+ftol)` slack on the square) -/
+  forceOk : Bool
+  /-- a start placement sits on the named grid point -/
+  gridOk : Bool
+
+def optMin (a : Option Rat) (b : Rat) : Option Rat :=
+  match a with
+  | none => some b
+  | some x => some (min x b)
+
+/-- `m`: positions before the call; `g`: the residue placed at `point`; `excl`: `g` and its bonded
+neighbours; `prev`: the residue it was grown from (`none` for the first residue of a molecule, which
+must then sit on `gridPoint`); `stepLen` = step factor × mean of the two residue sizes. -/
+def placementSpec (P : Params) (maxForce : Rat) (m : Nat → Option V3) (point : V3) (g : Nat)
+    (excl : List Nat) (prev : Option Nat) (stepLen tol ftol : Rat) (gridPoint : Option V3) : PlacementCheck :=
+  let stepD2 : Option Rat := match prev with
+    | none => none
+    | some pv => (m pv).map fun q => minImageSq point q P.L
+  let stepOk : Bool := match prev, stepD2 with
+    | none, _ => true
+    | some _, none => false
+    | some _, some d2 => decide (rabs (d2 - stepLen * stepLen) ≤ tol * (stepLen * stepLen))
+  let others := (List.range P.n).filterMap fun h =>
+    if h = g then none else (m h).map fun q => minImageSq point q P.L
+  let frc := specForce P m point g excl
+  { inBox := decide (inBox point P.L),
+    stepD2 := stepD2,
+    stepOk := stepOk,
+    closestD2 := others.foldl optMin none,
+    floorOk := others.all fun d2 => decide (P.floor * P.floor ≤ d2),
+    force := frc,
+    forceOk := match frc with
+      | .inf => false
+      | .vec f => decide (0 ≤ maxForce) && decide (f.normSq ≤ maxForce * maxForce * (1 + ftol)),
+    gridOk := match prev with
+      | some _ => true
+      | none => decide (gridPoint = some point) }
 
 end PolyplyVerif.Engine
